@@ -43,6 +43,9 @@ Fixpoint added_at (args : list (option arg)) (k : nat) : Q :=
   | Some a :: t => arg_at a k + added_at t k
   | None :: t => added_at t k
   end.
+(* Roadm.set_roadm_paths, default model: the add stage and the drop stage are each given add_drop_osnr + 10log10(2) dB, i.e.
+   each is worth half of the noise 1/add_drop_osnr *)
+Definition add_drop_stage (add_drop : Q) : Q := add_drop / 2.
 (* utils.snr_sum(snr, bw, snr_added):  1/snr' = 1/snr + (1/snr_added) * (bw / 12.5e9) *)
 Definition snr_sum (x bw added : Q) : Q := x + added * (bw / ref_bw).
 (* update_snr on one channel: every current figure is recomputed from the RAW figure *)
